@@ -71,9 +71,10 @@ func init() {
 		ID: "T01", NeedCG: true, Quick: cfgAMD, Thorough: cfgAll,
 		Explanation: "scratch",
 		Run: func(w *World, r *Report, tier string) {
-			guard(r, "WIRE", func() { ruleWIRE(w, r) })
-			guard(r, "SHLEN", func() { ruleSHLEN(w, r) })
-			guard(r, "MKLEN", func() { ruleMKLEN(w, r) })
+			guard(r, "DEADST", func() { ruleDEADST(w, r) })
+			guard(r, "IDXDOM", func() { ruleIDXDOM(w, r) })
+			guard(r, "DEEPEQ", func() { ruleDEEPEQ(w, r, "par1", "par2") })
+			guard(r, "TABLEFILL", func() { ruleTABLEFILL(w, r) })
 		},
 	})
 }
